@@ -240,8 +240,10 @@ func init() {
 			vs := cborl.NewVisitor(w)
 			return vs, func() int { d, _ := vs.VerifDepth(); return d }
 		},
-		newParser:   func(vs structform.Visitor) parserI { return cborParser{cborl.NewParser(vs)} },
-		parseReader: func(in io.Reader, vs structform.Visitor) (int64, error) { return cborl.ParseReader(in, vs) },
+		newParser:      func(vs structform.Visitor) parserI { return cborParser{cborl.NewParser(vs)} },
+		parseReader:    func(in io.Reader, vs structform.Visitor) (int64, error) { return cborl.ParseReader(in, vs) },
+		pkgParse:       func(b []byte, vs structform.Visitor) error { return cborl.Parse(b, vs) },
+		pkgParseString: func(str string, vs structform.Visitor) error { return cborl.ParseString(str, vs) },
 		newDecoder: func(in io.Reader, buf int, vs structform.Visitor) decoderI {
 			return cborl.NewDecoder(in, buf, vs)
 		},
